@@ -139,6 +139,10 @@ impl<'l> PktParser<'l> {
                 p if p & 0b1100_0000 == 0 => {
                     // Uncompressed label
                     domainv.push(dnspkt::Label::from(self.get_bytes(prefix as usize)?));
+                    // RFC1035 §2.3.4: a name is at most 255 octets (length octets and root included).
+                    if domainv.iter().map(|l| l.len() + 1).sum::<usize>() + 1 > 255 {
+                        return Err("Domain name too long".into());
+                    }
                 }
                 offset_high if offset_high & 0b1100_0000 == 0b1100_0000 => {
                     /* A name erbium compresses needs at most one pointer per label, and a
